@@ -31,7 +31,7 @@ RULE = (
     'scenario kinds: single (1 peak: shape x width x background x grid x estimate shift x guess fraction, all window '
     'widths inside the case), edges (peak and estimates at / beyond the data edges), modelspec (every name / instance / '
     'list specification, list result compared with the single-combination runs), multi_auto (2..6 peaks, scalar window, '
-    'extra estimates outside the data, separation factors), multi_explicit (every assignment of a window menu '
+    'extra estimates outside the data, separation factors 0.1 .. 0.9 on both sides of 1/2), multi_explicit (every assignment of a window menu '
     '{good, narrow, empty, outside, overlapping} to the peaks; full run vs every singleton and leave-one-out run), '
     'requirements (grid of FitRequirements), remove (real fits and hand-built results of every assessment, each at intensity scales 1e-12 .. 1e6; the fits '
     'at different scales are compared with each other), multi_explicit also with model lists on spectra whose peaks prefer different models, '
@@ -228,8 +228,12 @@ def cases(tier):
     if th:
         layouts += [(0.15, 0.3, 0.6, 0.85), (0.1, 0.22, 0.4, 0.55, 0.75, 0.9)]
     extras = ('none', 'left1', 'right1', 'right2', 'left2', 'both')
-    for g, lay, extra, sep in itertools.product(('u101', 'n200'), layouts, extras, (1 / 3, 0.1, 0.45)):
+    # separation factors above 1/2 (round 6): the two windows between neighbouring estimates then have to stay apart
+    # even when neither reaches the midpoint
+    for g, lay, extra, sep in itertools.product(('u101', 'n200'), layouts, extras, (1 / 3, 0.1, 0.45, 0.6, 0.9)):
         if not th and g == 'n200' and (extra not in ('none', 'right2') or sep != 1 / 3):
+            continue
+        if not th and sep > 0.5 and extra not in ('none', 'both'):
             continue
         pk = [{'shape': ('gaussian', 'lorentzian')[i % 2], 'width': 2.0, 'pos': p} for i, p in enumerate(lay)]
         spec = {'grid': g, 'bg': 'linear', 'noise': 0, 'peaks': pk}
